@@ -154,6 +154,7 @@ def verify_function(src: Source, reg: Registry, contract: Contract, prefix: str,
             if o >= len(eng.loop_ordinals):
                 raise Unsupported(f"contract names loop {o} but the function has {len(eng.loop_ordinals)} loops")
         eng.step_hooks = list(step_hooks or [])
+        eng.trace_fields = tuple(getattr(contract, "trace_fields", ()))
         st, self_ref, args = setup_state(eng, contract, fi)
         eng.self_ref = self_ref
         frame = set()
